@@ -47,7 +47,7 @@ ORACLE_DECIDED = [
     "C20.UnitDirection: | |d| - 1 | <= 1e-10",
     "C20.UnitPolarisation: | |p| - 1 | <= 1e-10",
     "C20.PolarisationPerpendicular: |d.p| <= 1e-10",
-    "C20.CerenkovCone: | d.s - 1/(n(E) beta_mean) | <= 1e-9 (3e-8 when the step direction is within 1e-6 of the "
+    "C20.CerenkovCone: | d.s - 1/(n(E) beta_mean) | <= 1e-9 (3e-8 when the step direction is within 1e-6 of, or exactly along, the "
     "z axis: accuracy of corecel rotate() there), n(E) by an independent linear interpolation, s = (post-pre)/|post-pre|",
     "C20.PositionOnSegment (collinearity part): distance from the line through pre/post <= 64 eps max(|pre|,|post|,chord)",
     "C20.TimeConsistentWithParent: t >= t0 + u L / v_max (1 - 1e-9) and, Cerenkov only, t <= t0 + u L / v_min (1 + 1e-9), "
